@@ -66,6 +66,18 @@ func Table(seed int64, d time.Duration) int {
 	return tot
 }
 
+// must runs f and panics with a DEADLOCK message if it does not return within 30 s of real time:
+// in the free-running tier a call that never returns is a deadlock of the code under test.
+func must(what string, f func()) {
+	done := make(chan struct{})
+	go func() { f(); close(done) }()
+	select {
+	case <-done:
+	case <-time.After(30 * time.Second):
+		panic("DEADLOCK: " + what + " did not return within 30 s")
+	}
+}
+
 func build(ctx context.Context, w int, opts engine.Options) (*engine.Engine, []uci.Option) {
 	switch w {
 	case 0:
@@ -106,14 +118,16 @@ func Engine(seed int64, d time.Duration, w int, hash, noise uint) int {
 				}
 			}()
 			time.Sleep(time.Duration(r.Intn(3000)) * time.Microsecond)
-			e.Position()
-			if err := e.Move(ctx, m); err != nil { // halts the search and goes on at once
-				panic(err)
-			}
+			must("Engine.Position", func() { e.Position() })
+			must("Engine.Move (halting the running search)", func() {
+				if err := e.Move(ctx, m); err != nil { // halts the search and goes on at once
+					panic(err)
+				}
+			})
 			n++
 		}
 	}
-	e.Halt(ctx)
+	must("Engine.Halt", func() { e.Halt(ctx) })
 	return n
 }
 
@@ -159,16 +173,64 @@ func UCI(seed int64, d time.Duration, w int) int {
 		default:
 			l = []string{"setoption name Hash value 1", "setoption name Noise value 30", "setoption name OwnBook value false"}[r.Intn(3)]
 		}
-		in <- l
+		must("the driver taking the line "+l, func() { in <- l })
 		n++
 		time.Sleep(time.Duration(r.Intn(2000)) * time.Microsecond)
 	}
 	if r.Intn(2) == 0 {
-		in <- "quit"
+		must("the driver taking quit", func() { in <- "quit" })
 	} else {
 		close(in)
 	}
-	<-drv.Closed()
-	wg.Wait()
+	must("driver shutdown after quit / end of input", func() { <-drv.Closed(); wg.Wait() })
+	return n
+}
+
+// EngineTwoClients: one goroutine halts the running analysis through Engine.Halt while another keeps
+// asking Engine.Analyze for the next one (accepted as soon as the engine considers itself idle).
+func EngineTwoClients(seed int64, d time.Duration, w int, noise uint) int {
+	r := rand.New(rand.NewSource(seed))
+	ctx, cancel := context.WithCancel(context.Background())
+	defer cancel()
+	e, _ := build(ctx, w, engine.Options{Noise: noise})
+	deadline := time.Now().Add(d)
+	n := 0
+	drain := func(out <-chan search.PV) {
+		go func() {
+			for range out {
+			}
+		}()
+	}
+	e.Reset(ctx, "rnbqkbnr/pppppppp/8/8/8/8/PPPPPPPP/RNBQKBNR w KQkq - 0 1")
+	out, err := e.Analyze(ctx, searchctl.Options{DepthLimit: lang.Some(uint(0))})
+	if err != nil {
+		panic(err)
+	}
+	drain(out)
+	for time.Now().Before(deadline) {
+		time.Sleep(time.Duration(r.Intn(2000)) * time.Microsecond)
+		var wg sync.WaitGroup
+		wg.Add(2)
+		go func() {
+			defer wg.Done()
+			must("Engine.Halt", func() { e.Halt(ctx) })
+		}()
+		go func() {
+			defer wg.Done()
+			must("Engine.Analyze after a halt", func() {
+				for {
+					out, err := e.Analyze(ctx, searchctl.Options{DepthLimit: lang.Some(uint(0))})
+					if err == nil {
+						drain(out)
+						return
+					}
+					time.Sleep(20 * time.Microsecond)
+				}
+			})
+		}()
+		wg.Wait()
+		n++
+	}
+	must("Engine.Halt", func() { e.Halt(ctx) })
 	return n
 }
